@@ -15,6 +15,7 @@ CONSTANTS
   ImportToks <- MCImportsDev
   CmtToks <- MCCmt
   NeverPruned <- MCNever
+  RootToks <- MCRootAll
   Cfgs <- MCCfgs
   ImpPairs <- MCImpQ
   InitSchemas <- MCInit3
